@@ -26,6 +26,11 @@ def short_strings(tier):
     for n in range(full + 1, red + 1):
         for t in itertools.product(REDUCED, repeat=n):
             yield bytes(t)
+    # longer strings over a three-letter alphabet (zero / one / all ones): deeper into nested structure
+    tiny = 5 if tier == "quick" else 9
+    for n in range(red + 1, tiny + 1):
+        for t in itertools.product((0x00, 0x01, 0xFF), repeat=n):
+            yield bytes(t)
 
 
 def allowed_error(e):
@@ -36,13 +41,13 @@ def allowed_error(e):
     )
 
 
-def judge_input(ws, data, part, fault, acc, order, readonly=False):
+def judge_input(ws, data, part, fault, acc, order, readonly=False, count=True):
     """One malformed (or not) input through the real decoder."""
     cls = ws.cls
     acc.add("evaluations")
-    src = streams.ReadOnlySource(data) if readonly else streams.CountingBytesIO(data)
+    src = streams.ReadOnlySource(data) if readonly else (streams.CountingBytesIO(data) if count else io.BytesIO(data))
     res, val = decode_with(cls, src, len(data))
-    if not readonly and src.returned > len(data):
+    if not readonly and count and src.returned > len(data):
         acc.report(violation("C10", part, f"C10/{part}/obtained-more-bytes-than-the-input-holds", ws.path,
                              {"class": ws.path, "input": data, "fault": fault}, f"at most {len(data)} bytes obtained from the source",
                              f"{src.returned} bytes obtained in {src.nreads} reads (re-reading / reading ahead)", order))
@@ -100,6 +105,7 @@ def _task(arg):
         acc.add("short_strings", n)
     ex = values.Explorer(ws, cfg["k"], "value", cfg["max_len"], cap=cfg["cap"])
     seen = set()
+    shapes = set()
     for cost, w, edits in ex:
         h = hash(values.freeze(w))
         if h in seen:
@@ -114,14 +120,18 @@ def _task(arg):
         for fault, data in streams.single_mutations(enc, offsets):
             m += 1
             judge_input(ws, data, "mutation", list(fault), acc, (idx, 1 + cost, len(seen), m),
-                        readonly=(cost == 0))
+                        readonly=(cost == 0), count=False)
         acc.add("single_mutations", m)
-        if cost == 0 or cfg["all_offsets"] or len(seen) <= cfg.get("subst_instances", 10**9):
+        # hostile prefixes once per distinct layout shape (same kinds and widths of spans in the same order):
+        # an instance that differs from an earlier one only in a scalar value has the same prefixes
+        shape = tuple((k, e - s_) for s_, e, k, _ in lay.spans if k != "data")
+        if cfg["all_offsets"] or shape not in shapes:
             m = 0
             for fault, data in streams.prefix_substitutions(enc, lay, ws.flexible, ws.is_request_header):
                 m += 1
                 judge_input(ws, data, "prefix", list(fault), acc, (idx, 3 + cost, len(seen), m))
             acc.add("prefix_substitutions", m)
+            shapes.add(shape)
         if cfg["pairs"] and cost == 0:
             m = 0
             for fault, data in streams.pair_overwrites(enc, crit[: cfg["pair_offsets"]]):
@@ -159,13 +169,13 @@ def run_c10(tier):
     c["rule"] = (
         f"for every one of the {len(classes)} classes: (a) every byte string of length <= "
         f"{1 if tier == 'quick' else 2} over all 256 byte values and of length <= {3 if tier == 'quick' else 4} "
-        "over {00,01,02,7f,80,81,fe,ff}; (b) for every instance within k<=1 deviations (reference "
+        f"over {{00,01,02,7f,80,81,fe,ff}} and of length <= {5 if tier == 'quick' else 9} over {{00,01,ff}}; (b) for every instance within k<=1 deviations (reference "
         "encoding, strings <= 130 bytes): every single-byte overwrite from {00,01,7f,80,ff,b^80,b^01,b+1}, "
         "every single deletion, every single insertion from {00,01,80,ff} - at all offsets for the base "
         "instance" + (" and for all k=1 instances" if cfg["all_offsets"] else
                       ", at the layout-critical offsets (length prefixes, counts, tags, sizes, markers) for k=1 instances")
         + ("; (c) every pair of overwrites on the layout-critical offsets of the base instance" if cfg["pairs"] else "")
-        + "; (d) every length / count / tag / size / marker prefix of every such instance replaced as a whole by hostile encodings "
+        + "; (d) every length / count / tag / size / marker prefix of every such instance (quick: of one instance per distinct layout shape) replaced as a whole by hostile encodings "
         "(maximal and over-long varints, values around 2^31 and 2^35, negative and huge fixed-width lengths, all 256 marker bytes)"
         + f". Each input is a distinct fault case. Verdict per input: finishes within {BUDGET_A}+{BUDGET_B}*len "
         "monitored steps; returns an entity (which must re-encode and re-decode stably) or raises SerialError / "
